@@ -138,18 +138,18 @@ Proof. exact read_denotes. Qed.
 Print Assumptions C02_read_denotes.
 
 (* (7) success: for blackbox-free modules of the subset whose net identifiers are usable node names (non-empty, no leading
-   digit - what the lexer's CNAME guarantees; in_subset does not say it) and whose outputs are inputs or driven nets, the read
-   succeeds: every check of add / connect passes (tree induction succ_cond, then the item fold, then module()).
+   digit - what the lexer's CNAME guarantees; in_subset does not say it) the read succeeds (in_subset demands that every output
+   is an input or a driven net): every check of add / connect passes (tree induction succ_cond, then the item fold, then module()).
    good_name n := n ≠ "" ∧ starts_digit n = false. *)
 Theorem C02_read_succeeds_bbfree : ∀ rsv bbs m,
-  ports_match m = true → in_subset bbs m = true → bbfree m → names_ok m → outs_driven bbs m → list_to_set (module_ids m) ⊆ rsv →
+  ports_match m = true → in_subset bbs m = true → bbfree m → names_ok m → list_to_set (module_ids m) ⊆ rsv →
   ∃ C, read rsv bbs m = Ok C.
 Proof. exact read_succeeds. Qed.
 Print Assumptions C02_read_succeeds_bbfree.
 (* (8) read_denotes in full for blackbox-free modules: the read succeeds, and name, (empty) registry, interface and both
    directions of the denotation hold *)
 Theorem C02_read_denotes_full_bbfree : ∀ rsv bbs m,
-  ports_match m = true → in_subset bbs m = true → bbfree m → names_ok m → outs_driven bbs m → list_to_set (module_ids m) ⊆ rsv →
+  ports_match m = true → in_subset bbs m = true → bbfree m → names_ok m → list_to_set (module_ids m) ⊆ rsv →
   ∃ C, read rsv bbs m = Ok C ∧ c_name C = m_name m ∧ c_bbs C = ∅ ∧
     inputs (c_g C) = list_to_set (decl_inputs m) ∧ outputs (c_g C) = list_to_set (decl_outputs m) ∧
     (∀ w, consistent (c_g C) w → ∃ x, sat_module m w x) ∧
@@ -183,19 +183,18 @@ Print Assumptions C02_read_denotes_of_success.
 
 (* (11) success of the read for modules with blackbox instances, under identifier guards that in_subset does not contain:
    names_ok (net identifiers non-empty, no leading digit), nodots (no `.` in a net identifier: then no node the reader creates
-   is called like a pin), outs_driven2 (every output is an input, a driven net or a net on a blackbox output pin),
-   bb_items_ok (instance names do not start with a digit, input and output pins of a definition are disjoint), pins_apart (pins of
+   is called like a pin), bb_items_ok (instance names do not start with a digit, input and output pins of a definition are disjoint), pins_apart (pins of
    instances with different names are different strings: `a.b`.`c` vs `a`.`b.c`).  Every check of add / connect / add_blackbox
    passes (Proofs/VerilogSuccBbProofs.v: invariant sinv, bconn_succ, bb_instance_succ, items_succ_x). *)
 Theorem C02_read_succeeds : ∀ rsv bbs m,
-  ports_match m = true → in_subset bbs m = true → names_ok m → nodots m → outs_driven2 bbs m →
+  ports_match m = true → in_subset bbs m = true → names_ok m → nodots m →
   bb_items_ok rsv bbs m → pins_apart (bb_insts bbs m) → list_to_set (module_ids m) ⊆ rsv → ∃ C, read rsv bbs m = Ok C.
 Proof. exact read_succeeds_bb. Qed.
 Print Assumptions C02_read_succeeds.
 (* (12) the full statement under these guards: the read succeeds and the circuit has the name, registry, pins and denotation of
    the module (conclusion word for word that of C02_read_denotes_full) *)
 Theorem C02_read_denotes_full_guarded : ∀ rsv bbs m,
-  ports_match m = true → in_subset bbs m = true → names_ok m → nodots m → outs_driven2 bbs m →
+  ports_match m = true → in_subset bbs m = true → names_ok m → nodots m →
   bb_items_ok rsv bbs m → pins_apart (bb_insts bbs m) → list_to_set (module_ids m) ⊆ rsv →
   ∃ C, read rsv bbs m = Ok C ∧ c_name C = m_name m ∧
     c_bbs C = list_to_map ((λ x, (x.1.1, x.1.2)) <$> bb_insts bbs m) ∧
@@ -205,9 +204,9 @@ Theorem C02_read_denotes_full_guarded : ∀ rsv bbs m,
 Proof. exact read_denotes_full_guarded. Qed.
 Print Assumptions C02_read_denotes_full_guarded.
 
-(* the statement without the identifier guards: NOT a theorem - `output a; xor g(o, a, a);` is in the subset and the reader raises
-   KeyError (both operands cancel, `a` never becomes a node); an identifier `1a` or `` is refused by add(); a dotted net `x.q` next to
-   an instance `not_x` makes add_blackbox raise.  It is kept as the statement the harness decides per generated module
+(* the statement without the identifier guards: NOT a theorem - an identifier `1a` or `` is refused by add(); a dotted net `x.q` next
+   to an instance `not_x` makes add_blackbox raise.  (The guard in_subset excludes outputs that no statement turns into a node:
+   `output z;` never mentioned, `output a; xor g(o, a, a);`, `assign o = a ^ a;` - the reader rejects these with KeyError.)  It is kept as the statement the harness decides per generated module
    (Run_C02.holds evaluates in_subset and the executable form `denotes` of the conclusion); the generator produces none of the
    corner cases.  C02_read_denotes_full_guarded is this statement under the guards of (11). *)
 Definition C02_read_denotes_full : Prop := ∀ rsv bbs m,
@@ -225,13 +224,11 @@ Definition ex_mod : vmodule :=
      [IInput ["a"; "b"]; IOutput ["o"; "not_a"];
       IAssign [("o", CTern (OXor (XAnd (AUn (UNot (PId "a"))))) (OXor (XXor (XAnd (L02 (PId "a"))) (L02 (PId "b")))) (L04 (PConst K0)));
                ("not_a", L25 (AAnd (L02 (PId "a")) (UPrim (PId "b"))))]].
-Example C02_ex_bbfree : bbfree ex_mod ∧ names_ok ex_mod ∧ outs_driven [] ex_mod.
+Example C02_ex_bbfree : bbfree ex_mod ∧ names_ok ex_mod.
 Proof.
-  split; [|split].
+  split.
   - intros mn insts Hin. unfold ex_mod, Md in Hin. simpl in Hin. rewrite !elem_of_cons, elem_of_nil in Hin. naive_solver.
   - intros s Hs. revert s Hs. apply Forall_forall. apply (bool_decide_eq_true_1 (Forall good_name (module_nets ex_mod))). vm_compute. reflexivity.
-  - intros s Hs. revert s Hs. apply Forall_forall.
-    apply (bool_decide_eq_true_1 (Forall (λ s, s ∈ decl_inputs ex_mod ∨ s ∈ module_defs [] ex_mod) (decl_outputs ex_mod))). vm_compute. reflexivity.
 Qed.
 Example C02_ex_in_subset : ports_match ex_mod = true ∧ in_subset [] ex_mod = true ∧ bool_decide (list_to_set (module_ids ex_mod) ⊆ ex_rsv) = true.
 Proof. vm_compute. done. Qed.
@@ -258,15 +255,12 @@ Example C02_ex_bb : ports_match ex_mod_bb = true ∧ in_subset [ex_ff] ex_mod_bb
   match read ex_rsv_bb [ex_ff] ex_mod_bb with Ok C => denotes [ex_ff] ex_mod_bb C | _ => false end = true.
 Proof. vm_compute. done. Qed.
 (* non-vacuity of the guards of (11)/(12): they hold for the module with a blackbox instance above *)
-Example C02_ex_bb_guards : names_ok ex_mod_bb ∧ nodots ex_mod_bb ∧ outs_driven2 [ex_ff] ex_mod_bb ∧
+Example C02_ex_bb_guards : names_ok ex_mod_bb ∧ nodots ex_mod_bb ∧
   bb_items_ok ex_rsv_bb [ex_ff] ex_mod_bb ∧ pins_apart (bb_insts [ex_ff] ex_mod_bb).
 Proof.
-  split; [|split; [|split; [|split]]].
+  split; [|split; [|split]].
   - intros s Hs. revert s Hs. apply Forall_forall. apply (bool_decide_eq_true_1 (Forall good_name (module_nets ex_mod_bb))). vm_compute. reflexivity.
   - intros s Hs. revert s Hs. apply Forall_forall. apply (bool_decide_eq_true_1 (Forall (λ s, Lint.has_dot s = false) (module_nets ex_mod_bb))). vm_compute. reflexivity.
-  - intros s Hs. revert s Hs. apply Forall_forall.
-    apply (bool_decide_eq_true_1 (Forall (λ s, s ∈ decl_inputs ex_mod_bb ∨ s ∈ (drivers ex_mod_bb).*1 ∨ s ∈ netsL (bb_insts [ex_ff] ex_mod_bb)) (decl_outputs ex_mod_bb))).
-    vm_compute. reflexivity.
   - unfold bb_items_ok. apply Forall_forall. intros it Hit. unfold ex_mod_bb, Md in Hit. cbn [m_items] in Hit.
     rewrite !elem_of_cons, elem_of_nil in Hit. destruct Hit as [->|[->|[->|[->|[->|[]]]]]]; try exact I.
     unfold item_bb_ok. assert (E1 : prim_of_name "ff" = None) by (vm_compute; reflexivity).
